@@ -324,6 +324,32 @@ def rule_repkey(fx, rep):
 PREDS = ("Game::is_repeated_position", "Game::is_stalemate_by_fifty_move_rule", "Game::is_stalemate_by_insufficient_material")
 
 
+def wrappers_of(fx, pred):
+    """names of small in-crate bool functions W with: pred(..) true  =>  W returns true (every path on which the call's
+    result is taken as true returns the constant true)"""
+    from facts import decision_paths
+    out = []
+    for (cb, bb, t) in fx.callers_of(lambda nm: nm.endswith(pred)):
+        if cb.kind not in ("Fn", "AssocFn") or cb.local_ty(0) != "bool" or cb.n > 40 or "::tests::" in cb.name:
+            continue
+        implied = True
+        seen_true = False
+        for conds, ret, last in decision_paths(cb, 256):
+            took_true = any(isinstance(deep_strip(e), tuple) and deep_strip(e)[0] == "call" and str(deep_strip(e)[1]).endswith(pred) and
+                            ((isinstance(v, int) and v != 0) or (isinstance(v, tuple) and v[0] == "otherwise" and 0 in v[1])) for (e, v) in conds)
+            r = deep_strip(ret) if ret is not None else None
+            if isinstance(r, tuple) and r and r[0] == "call" and str(r[1]).endswith(pred):
+                seen_true = True  # the wrapper returns the predicate's own verdict on this path
+                continue
+            if took_true:
+                seen_true = True
+                if ret is None or deep_strip(ret) not in (("const", 1), ("const", True)):
+                    implied = False
+        if implied and seen_true:
+            out.append(norm(cb.name))
+    return out
+
+
 def rule_callers(fx, rep):
     ok = True
     n = 0
@@ -339,6 +365,10 @@ def rule_callers(fx, rep):
         for p in PREDS:
             n += 1
             calls = b.calls_to(p)
+            if not calls:
+                # the predicate may be consulted through a small boolean wrapper (`is_drawn_by_rule`) that is true whenever it is
+                for w in wrappers_of(fx, p):
+                    calls = calls or b.calls_to(w)
             good = len(calls) >= 1
             if good:
                 cb, t = calls[0]
